@@ -16,10 +16,10 @@ try:
     demos = [f for f in os.listdir(os.path.join(seed, 'demo'))]
     for f in demos:
         shutil.copy(os.path.join(seed, 'demo', f), os.path.join(wt, target, f))
-    rc, out = sh(f'go test -vet=off -count=1 -run "{runre}" ./{os.path.relpath(target, mod)}/', cwd=os.path.join(wt, mod))
+    rc, out = sh(f'go test -vet=off -count=1 -run "{runre}" ./' + ('' if os.path.relpath(target, mod) == '.' else os.path.relpath(target, mod) + '/'), cwd=os.path.join(wt, mod))
     res['demo_without_patch_passes'] = (rc == 0)
     rc, out = sh(f'git apply {os.path.abspath(seed)}/patch.diff', cwd=wt); res['applies'] = (rc == 0)
-    rc, out = sh(f'go test -vet=off -count=1 -run "{runre}" ./{os.path.relpath(target, mod)}/', cwd=os.path.join(wt, mod))
+    rc, out = sh(f'go test -vet=off -count=1 -run "{runre}" ./' + ('' if os.path.relpath(target, mod) == '.' else os.path.relpath(target, mod) + '/'), cwd=os.path.join(wt, mod))
     res['demo_with_patch_fails'] = (rc != 0)
     for f in demos:
         os.remove(os.path.join(wt, target, f))
